@@ -377,6 +377,12 @@ def run(ctx: Context, rep) -> None:
     # nothing read from the dataset's files / the environment is memoised
     from sa.rules import shared as _shm
     _shm.check_no_memo(ctx, rep, "C18.memo")
+    # the npz writer saves its buffers as they are (same check as
+    # C01.npz-save): a conversion at close time rejects what write accepted
+    from sa.rules import c01 as _c01_18
+    _c01_18.check_npz_save(ctx, rep, "C18.npz-save")
+    _shm.check_no_shared_class_state(ctx, rep, "C18.class-state")
+    _shm.check_assert_pure(ctx, rep, "C18.assert")
 
 def check_writer_state(ctx: Context, rep, rule: str) -> None:
     rep.rule(
